@@ -21,7 +21,7 @@ CHECKS = {
             "model-checked in MC_Ledger.", "4.1, 6 C01"),
     "C02": ("model_checking", "Conservation clauses on every fraction and event (amount positive, lot not overspent, lot not younger than the event, event covered in full), "
             "run rejected iff the history is not covered at some disposal instant (all prefixes of overspending histories), covered histories never rejected; "
-            "dispose-all extensions are part of the alphabet; MC_Ledger checks Conservation and StuckIffUncovered on the design.", "4.1, 6 C02"),
+            "dispose-all extensions are part of the alphabet; MC_Ledger checks Conservation and StuckIffUncovered on the design; the pairing loop's arithmetic is also proved for unbounded amounts (Ind_Pairing, inductive invariant, Apalache).", "4.1, 6 C02"),
     "C03": ("model_checking", "TLC checks that the events with fractions are exactly the taxable transactions of the history (type-complete alphabet: all 14 types in every table "
             "that takes them, transfers with and without fee), each once and in full, income with no lot, zero cost, full amount.", "4.1, 6 C03"),
     "C04": ("model_checking", "TLC checks the structure of every figure by integer cross-multiplication on the lattice (proceeds pro-rated over the total outgoing amount, cost "
